@@ -197,36 +197,78 @@ func ruleWSig(c *Ctx) {
 // digestRule: CalcInputSignatureHash returns Sha256d(buf) where buf is the result of the
 // function value chosen by sigStrat; sigStrat returns CalcInputPreimage iff flag has ForkID.
 var dynCallRe = regexp.MustCompile(`call#\d+\(`)
+var staticPreRe = regexp.MustCompile(`\(\*bt\.Tx\)\.CalcInputPreimage(Legacy)?\(p0, `)
 
 func digestRule(c *Ctx, sh *ssa.Function) {
-	var strat, dyn *ssa.Call
-	var sha *ssa.Call
-	for _, b := range sh.Blocks {
-		for _, ins := range b.Instrs {
-			call, ok := ins.(*ssa.Call)
-			if !ok {
-				continue
+	// which preimage builder runs under which value of the FORKID bit: read from the paths of
+	// CalcInputSignatureHash (a direct if/else) or, when the choice is delegated, from sigStrat
+	builderOn := map[bool]map[string]bool{true: {}, false: {}}
+	builderName := func(v ssa.Value) string {
+		switch x := v.(type) {
+		case *ssa.MakeClosure:
+			return strings.TrimSuffix(x.Fn.Name(), "$bound")
+		case *ssa.ChangeType:
+			if mc, ok := x.X.(*ssa.MakeClosure); ok {
+				return strings.TrimSuffix(mc.Fn.Name(), "$bound")
 			}
-			if sc := call.Call.StaticCallee(); sc != nil {
-				if sc.Name() == "sigStrat" {
-					strat = call
+		}
+		return ""
+	}
+	forkTruth := func(d *DPath) (bool, bool) {
+		for _, pc := range d.Conds {
+			if pc.Cond.K == "call" && strings.Contains(pc.Cond.Name, "sighash.Flag).Has") && len(pc.Cond.Args) == 2 && pc.Cond.Args[1].String() == "64" {
+				return pc.Truth, true
+			}
+		}
+		return false, false
+	}
+	shaOfPre := true
+	if paths, err := feasiblePaths(sh, 500); err == nil {
+		for _, d := range paths {
+			for _, ins := range pathInstrs(d) {
+				call, ok := ins.(*ssa.Call)
+				if !ok {
+					continue
 				}
-				if sc.String() == "github.com/libsv/go-bk/crypto.Sha256d" {
-					sha = call
+				if sc := call.Call.StaticCallee(); sc != nil {
+					switch sc.Name() {
+					case "CalcInputPreimage", "CalcInputPreimageLegacy":
+						if t, ok := forkTruth(d); ok {
+							builderOn[t][sc.Name()] = true
+						} else {
+							builderOn[true][sc.Name()], builderOn[false][sc.Name()] = true, true
+						}
+					case "Sha256d":
+						// hashes result #0 of the builder call of this path
+						at := atomName(d.Env.Term(call.Call.Args[0]))
+						if !(strings.HasSuffix(at, "#0") && (strings.Contains(at, "CalcInputPreimage") || dynCallRe.MatchString(at))) {
+							shaOfPre = false
+						}
+					}
 				}
-			} else if call.Call.Value == ssa.Value(strat) {
-				dyn = call
 			}
 		}
 	}
-	okShape := strat != nil && dyn != nil && sha != nil
-	if okShape {
-		// sha's argument is result #0 of the dynamic call
-		ex, isEx := sha.Call.Args[0].(*ssa.Extract)
-		okShape = isEx && ex.Tuple == ssa.Value(dyn) && ex.Index == 0
+	if st := c.P.Func("", "*Tx", "sigStrat"); st != nil {
+		if paths, err := feasiblePaths(st, 100); err == nil {
+			for _, d := range paths {
+				if d.Ret == nil {
+					continue
+				}
+				n := builderName(d.Env.Val(d.Ret.Results[0]))
+				if t, ok := forkTruth(d); ok {
+					builderOn[t][n] = true
+				} else {
+					builderOn[true][n], builderOn[false][n] = true, true
+				}
+			}
+		}
 	}
-	c.Check(okShape, "S-dig", "CalcInputSignatureHash/sha256d(preimage)", sh.Pos(), "the digest is Sha256d of the preimage produced by the strategy selected by sigStrat",
-		"CalcInputSignatureHash no longer returns Sha256d of the preimage selected by sigStrat")
+	okSel := len(builderOn[true]) == 1 && builderOn[true]["CalcInputPreimage"] && len(builderOn[false]) == 1 && builderOn[false]["CalcInputPreimageLegacy"]
+	c.Check(okSel, "S-dig", "sigStrat/selection", sh.Pos(), "FORKID bit (0x40) selects CalcInputPreimage, otherwise the legacy algorithm",
+		fmt.Sprintf("the preimage builder is not CalcInputPreimage exactly when the hash type has bit 0x40: with the bit %v, without it %v", keysSorted(builderOn[true]), keysSorted(builderOn[false])))
+	c.Check(shaOfPre, "S-dig", "CalcInputSignatureHash/sha256d(preimage)", sh.Pos(), "the digest is Sha256d of the preimage produced by the selected builder",
+		"CalcInputSignatureHash no longer returns Sha256d of the preimage of the selected builder")
 	// every return: the preimage function's error; the preimage itself iff it equals the SINGLE-bug
 	// constant (which only the legacy builder returns); otherwise Sha256d(preimage). No other shortcut.
 	if paths, err := feasiblePaths(sh, 500); err == nil {
@@ -238,13 +280,18 @@ func digestRule(c *Ctx, sh *ssa.Function) {
 			var cs []string
 			for _, pc := range d.Conds {
 				s := atomName(pc.Cond)
+				if pc.Cond.K == "call" && strings.Contains(pc.Cond.Name, "sighash.Flag).Has") {
+					continue // the builder choice, decided above
+				}
 				if !pc.Truth {
 					s = "!" + s
 				}
 				cs = append(cs, s)
 			}
 			k := strings.Join(cs, " && ") + " => " + atomName(d.Env.Term(d.Ret.Results[0])) + ", " + strings.TrimPrefix(returnDesc(d), "return ")
-			got[dynCallRe.ReplaceAllString(k, "PRE(")] = true
+			k = dynCallRe.ReplaceAllString(k, "PRE(")
+			k = staticPreRe.ReplaceAllString(k, "PRE(")
+			got[k] = true
 		}
 		pre := "PRE(p1, p2)"
 		want := setOf(
@@ -260,45 +307,6 @@ func digestRule(c *Ctx, sh *ssa.Function) {
 		}
 		c.Check(same, "S-dig", "CalcInputSignatureHash/returns", sh.Pos(), "returns the builder's error, the SINGLE-bug constant when the builder produced it, else Sha256d(preimage); no other path",
 			"CalcInputSignatureHash has a return outside {builder error, builder's SINGLE-bug constant, Sha256d(preimage)}: "+strings.Join(keysSorted(got), " | "))
-	}
-	if st := c.P.Func("", "*Tx", "sigStrat"); st != nil {
-		// decision: Has(ForkID) -> CalcInputPreimage else Legacy
-		okSel := false
-		for _, b := range st.Blocks {
-			iff, ok := b.Instrs[len(b.Instrs)-1].(*ssa.If)
-			if !ok {
-				continue
-			}
-			call, ok := iff.Cond.(*ssa.Call)
-			if !ok || call.Call.StaticCallee() == nil || call.Call.StaticCallee().Name() != "Has" {
-				continue
-			}
-			k, isC := call.Call.Args[1].(*ssa.Const)
-			if !isC || k.Value == nil || k.Value.ExactString() != "64" {
-				continue
-			}
-			retName := func(bb *ssa.BasicBlock) string {
-				if r, ok := bb.Instrs[len(bb.Instrs)-1].(*ssa.Return); ok {
-					if mc, ok := r.Results[0].(*ssa.MakeClosure); ok {
-						return mc.Fn.Name()
-					}
-					if ct, ok := r.Results[0].(*ssa.ChangeType); ok {
-						if mc, ok := ct.X.(*ssa.MakeClosure); ok {
-							return mc.Fn.Name()
-						}
-					}
-				}
-				return ""
-			}
-			t, f := retName(b.Succs[0]), retName(b.Succs[1])
-			if strings.HasPrefix(t, "CalcInputPreimage$") && strings.HasPrefix(f, "CalcInputPreimageLegacy$") {
-				okSel = true
-			}
-		}
-		c.Check(okSel, "S-dig", "sigStrat/selection", st.Pos(), "FORKID bit (0x40) selects CalcInputPreimage, otherwise the legacy algorithm",
-			"sigStrat does not select CalcInputPreimage exactly when the hash type has bit 0x40")
-	} else {
-		c.Undecided("S-dig", "sigStrat", token.NoPos, "not found")
 	}
 }
 
@@ -332,26 +340,19 @@ func ruleWLeg(c *Ctx) {
 	// the constant is returned unhashed by CalcInputSignatureHash
 	if sh := c.P.Func("", "*Tx", "CalcInputSignatureHash"); sh != nil {
 		okEq := false
-		for _, b := range sh.Blocks {
-			iff, ok := b.Instrs[len(b.Instrs)-1].(*ssa.If)
-			if !ok {
-				continue
-			}
-			call, ok := iff.Cond.(*ssa.Call)
-			if !ok || call.Call.StaticCallee() == nil || call.Call.StaticCallee().String() != "bytes.Equal" {
-				continue
-			}
-			usesDefault := false
-			for _, a := range call.Call.Args {
-				if ld, ok := a.(*ssa.UnOp); ok {
-					if g, ok := ld.X.(*ssa.Global); ok && g.Name() == "defaultHex" {
-						usesDefault = true
-					}
+		if paths, err := feasiblePaths(sh, 500); err == nil {
+			for _, d := range paths {
+				if d.Ret == nil || returnDesc(d) != "return nil" {
+					continue
 				}
-			}
-			if r, ok := b.Succs[0].Instrs[len(b.Succs[0].Instrs)-1].(*ssa.Return); ok && usesDefault {
-				if _, isEx := r.Results[0].(*ssa.Extract); isEx {
-					okEq = true
+				rt := d.Env.Term(d.Ret.Results[0]).String()
+				for _, pc := range d.Conds {
+					if pc.Truth && pc.Cond.K == "call" && strings.HasPrefix(pc.Cond.Name, "bytes.Equal") && len(pc.Cond.Args) == 2 {
+						a0, a1 := pc.Cond.Args[0].String(), pc.Cond.Args[1].String()
+						if (strings.Contains(a0, "defaultHex") && a1 == rt) || (strings.Contains(a1, "defaultHex") && a0 == rt) {
+							okEq = true
+						}
+					}
 				}
 			}
 		}
